@@ -1,2 +1,10 @@
-(* C07: what the driver evaluates on every observed case (temporary: case_sound follows) *)
+(* C07: what the driver evaluates on every observed case.
+   case, case_accept (the implementation returned exactly what the model computes) and case_holds (the property's
+   clauses on the observed values) are defined in C07_Mon.v; the soundness proof is C07_Proofs.accept_sound. *)
+From Coq Require Import List Bool ZArith.
 Require Export C07_Model C07_Mon.
+Require Import C07_Proofs.
+Import ListNotations.
+
+Theorem case_sound : forall c : case, case_accept c = true -> case_holds c = true.
+Proof. exact accept_sound. Qed.
